@@ -25,6 +25,10 @@ var ErrSegmentNotFound = errors.New("segment not found")
 // Concurrency Control is activated.
 var ErrIncorrectOffset = errors.New("incorrect offset")
 
+// ErrInvalidMessageSet is returned if message set data is truncated or
+// otherwise malformed.
+var ErrInvalidMessageSet = errors.New("invalid message set")
+
 const (
 	logFileSuffix               = ".log"
 	indexFileSuffix             = ".index"
@@ -248,8 +252,11 @@ func (l *commitLog) AppendMessageSet(ms []byte) ([]int64, error) {
 	var (
 		segment      = l.activeSegment()
 		basePosition = segment.Position()
-		entries      = entriesForMessageSet(basePosition, ms)
 	)
+	entries, err := entriesForMessageSet(basePosition, ms)
+	if err != nil {
+		return nil, err
+	}
 	return l.append(segment, ms, entries)
 }
 
